@@ -884,8 +884,14 @@ impl<'cmd> Parser<'cmd> {
     ) -> ClapResult<ParseResult> {
         debug!("Parser::parse_short_arg: short_arg={short_arg:?}");
 
+        let skip = self.flag_subcmd_skip;
+        self.flag_subcmd_skip = 0;
+
         #[allow(clippy::blocks_in_conditions)]
-        if matches!(parse_state, ParseState::Opt(opt) | ParseState::Pos(opt)
+        if skip != 0 {
+            // Resuming a group of short flags after a flag subcommand was found in it: the parent
+            // already took the group as flags, it is not a value
+        } else if matches!(parse_state, ParseState::Opt(opt) | ParseState::Pos(opt)
                 if self.cmd[opt].is_allow_hyphen_values_set() || (self.cmd[opt].is_allow_negative_numbers_set() && short_arg.is_negative_number()))
         {
             debug!("Parser::parse_short_args: prior arg accepts hyphenated values",);
@@ -916,8 +922,6 @@ impl<'cmd> Parser<'cmd> {
 
         let mut ret = ParseResult::NoArg;
 
-        let skip = self.flag_subcmd_skip;
-        self.flag_subcmd_skip = 0;
         if skip == 0 {
             // A fresh group of short flags: forget the flag subcommand recorded in an earlier group
             self.flag_subcmd_at = None;
